@@ -208,70 +208,146 @@ theorem flush_entries (s : Store) :
 theorem reopen_entries (s : Store) : s.reopen.entries = s.flush.entries := by
   simp [Store.reopen, Store.flush, Store.entries, Store.chain]
 
-theorem foldl_inv : ∀ (ops : List Op) (s0 : Store),
-    (∀ e, e ∈ (ops.foldl Store.apply s0).entries → e ∈ s0.entries ∨ e ∈ written ops) ∧
-    (∀ k, k ∈ (ops.foldl Store.apply s0).keys ↔ k ∈ s0.keys ∨ k ∈ (written ops).map (·.1))
-  | [], s0 => by simp [written]
-  | op :: rest, s0 => by
-    obtain ⟨ih1, ih2⟩ := foldl_inv rest (s0.apply op)
-    simp only [List.foldl_cons]
-    cases op with
-    | put a d =>
-      obtain ⟨p1, p2⟩ := put_entries s0 a d
-      constructor
-      · intro e he
-        rcases ih1 e he with h | h
-        · rcases p1 e h with h | h
-          · exact Or.inl h
-          · exact Or.inr (by rw [h]; exact List.mem_cons_self ..)
-        · exact Or.inr (List.mem_cons_of_mem _ h)
-      · intro k
-        rw [ih2 k]
-        simp only [Store.apply, p2 k, written, List.map_cons, List.mem_cons]
-        constructor
-        · rintro ((h | h) | h)
-          · exact Or.inl h
-          · exact Or.inr (Or.inl h)
-          · exact Or.inr (Or.inr h)
-        · rintro (h | h | h)
-          · exact Or.inl (Or.inl h)
-          · exact Or.inl (Or.inr h)
-          · exact Or.inr h
-    | commit =>
-      obtain ⟨f1, f2⟩ := flush_entries s0
-      constructor
-      · intro e he
-        rcases ih1 e he with h | h
-        · exact Or.inl (f1 e h)
-        · exact Or.inr h
-      · intro k
-        rw [ih2 k]
-        simp only [Store.apply, f2 k, written]
-    | reopen =>
-      obtain ⟨f1, f2⟩ := flush_entries s0
-      have hk : ∀ k, k ∈ s0.reopen.keys ↔ k ∈ s0.keys := by
-        intro k; unfold Store.keys; rw [reopen_entries]; exact f2 k
-      constructor
-      · intro e he
-        rcases ih1 e he with h | h
-        · exact Or.inl (f1 e (by simpa [Store.apply, reopen_entries] using h))
-        · exact Or.inr h
-      · intro k
-        rw [ih2 k]
-        simp only [Store.apply, hk k, written]
+theorem conjoin_entries (s : Store) (sel : Source → Bool) :
+    (∀ e, e ∈ (s.conjoin sel).entries ↔ e ∈ s.entries) := by
+  intro e
+  have hm : e ∈ ((s.upstream.filter sel).flatten :: s.upstream.filter (fun t => !sel t)).flatten ↔ e ∈ s.upstream.flatten := by
+    simp only [List.flatten_cons, List.mem_append, List.mem_flatten, List.mem_filter]
+    constructor
+    · rintro (⟨l, ⟨hl, _⟩, he⟩ | ⟨l, ⟨hl, _⟩, he⟩) <;> exact ⟨l, hl, he⟩
+    · rintro ⟨l, hl, he⟩
+      by_cases h : sel l = true
+      · exact Or.inl ⟨l, ⟨hl, h⟩, he⟩
+      · exact Or.inr ⟨l, ⟨hl, by simp [h]⟩, he⟩
+  simp only [Store.conjoin, Store.entries, List.flatten_cons, List.flatten_append, List.mem_append] at hm ⊢
+  rw [hm]
 
-/-- present iff written (no garbage collection in this model) -/
+theorem gc_entries (s : Store) (keep : Addr → Bool) :
+    (s.gc keep).entries = s.entries.filter (fun e => keep e.1) := by
+  simp [Store.gc, Store.entries]
+
+/-- garbage collection computes exactly the restriction of the abstract map to the keep-set -/
+theorem gc_abs (s : Store) (keep : Addr → Bool) (a : Addr) :
+    (s.gc keep).abs a = if keep a then s.abs a else none := by
+  unfold Store.abs
+  rw [gc_entries]
+  generalize s.entries = l
+  induction l with
+  | nil => simp
+  | cons x xs ih =>
+    obtain ⟨k, v⟩ := x
+    by_cases hk : keep k = true
+    · simp only [List.filter_cons, hk, if_true]
+      by_cases hak : a = k
+      · subst hak; simp [List.lookup, hk]
+      · have : (a == k) = false := by simp [hak]
+        simp only [List.lookup, this]; exact ih
+    · simp only [List.filter_cons, hk, Bool.false_eq_true, if_false]
+      by_cases hak : a = k
+      · subst hak
+        rw [ih]; simp [hk]
+      · have : (a == k) = false := by simp [hak]
+        simp only [List.lookup, this]; exact ih
+
+/-- store `s` holds exactly the specification list `l`: nothing but pairs of `l`, and every address of `l` -/
+def Holds (s : Store) (l : List (Addr × Bytes)) : Prop :=
+  (∀ e, e ∈ s.entries → e ∈ l) ∧ (∀ k, k ∈ s.keys ↔ k ∈ l.map (·.1))
+
+theorem holds_step (s : Store) (l : List (Addr × Bytes)) (h : Holds s l) (op : Op) :
+    Holds (s.apply op) (liveStep l op) := by
+  obtain ⟨h1, h2⟩ := h
+  cases op with
+  | put a d =>
+    obtain ⟨p1, p2⟩ := put_entries s a d
+    refine ⟨?_, ?_⟩
+    · intro e he
+      rcases p1 e he with h | h
+      · exact List.mem_cons_of_mem _ (h1 e h)
+      · rw [h]; exact List.mem_cons_self ..
+    · intro k
+      simp only [Store.apply, p2 k, liveStep, List.map_cons, List.mem_cons, h2 k]
+      constructor
+      · rintro (h | h)
+        · exact Or.inr h
+        · exact Or.inl h
+      · rintro (h | h)
+        · exact Or.inr h
+        · exact Or.inl h
+  | commit =>
+    obtain ⟨f1, f2⟩ := flush_entries s
+    exact ⟨fun e he => h1 e (f1 e he), fun k => by simp only [Store.apply, liveStep, f2 k, h2 k]⟩
+  | reopen =>
+    obtain ⟨f1, f2⟩ := flush_entries s
+    refine ⟨fun e he => h1 e (f1 e (by simpa [Store.apply, reopen_entries] using he)), fun k => ?_⟩
+    have : k ∈ s.reopen.keys ↔ k ∈ s.keys := by unfold Store.keys; rw [reopen_entries]; exact f2 k
+    simp only [Store.apply, liveStep, this, h2 k]
+  | conjoin sel =>
+    have hc := conjoin_entries s sel
+    refine ⟨fun e he => h1 e ((hc e).mp he), fun k => ?_⟩
+    simp only [Store.apply, liveStep, ← h2 k, Store.keys, List.mem_map]
+    constructor
+    · rintro ⟨e, he, rfl⟩; exact ⟨e, (hc e).mp he, rfl⟩
+    · rintro ⟨e, he, rfl⟩; exact ⟨e, (hc e).mpr he, rfl⟩
+  | gc keep =>
+    refine ⟨?_, ?_⟩
+    · intro e he
+      simp only [Store.apply, gc_entries, List.mem_filter] at he
+      exact List.mem_filter.mpr ⟨h1 e he.1, he.2⟩
+    · intro k
+      simp only [Store.apply, liveStep, Store.keys, gc_entries, List.mem_map, List.mem_filter]
+      constructor
+      · rintro ⟨e, ⟨he, hk⟩, rfl⟩
+        obtain ⟨e', he', hek⟩ := List.mem_map.mp ((h2 e.1).mp (List.mem_map.mpr ⟨e, he, rfl⟩))
+        exact ⟨e', ⟨he', by rw [hek]; exact hk⟩, hek⟩
+      · rintro ⟨e, ⟨he, hk⟩, rfl⟩
+        obtain ⟨e', he', hek⟩ := List.mem_map.mp ((h2 e.1).mpr (List.mem_map.mpr ⟨e, he, rfl⟩))
+        exact ⟨e', ⟨he', by rw [hek]; exact hk⟩, hek⟩
+
+theorem holds_foldl : ∀ (ops : List Op) (s : Store) (l : List (Addr × Bytes)), Holds s l →
+    Holds (ops.foldl Store.apply s) (ops.foldl liveStep l)
+  | [], _, _, h => h
+  | op :: rest, s, l, h => holds_foldl rest _ _ (holds_step s l h op)
+
+theorem holds_run (ops : List Op) : Holds (run ops) (live ops) :=
+  holds_foldl ops ⟨[], [], []⟩ [] ⟨by simp [Store.entries], by simp [Store.keys, Store.entries]⟩
+
+theorem live_sub_written : ∀ (ops : List Op) (l : List (Addr × Bytes)) (e : Addr × Bytes),
+    e ∈ ops.foldl liveStep l → e ∈ l ∨ e ∈ written ops
+  | [], _, _, h => Or.inl h
+  | op :: rest, l, e, h0 => by
+    rcases live_sub_written rest (liveStep l op) e h0 with h | h
+    · clear h0
+      cases op with
+      | put a d =>
+        rcases List.mem_cons.mp h with h | h
+        · exact Or.inr (by rw [h]; exact List.mem_cons_self ..)
+        · exact Or.inl h
+      | gc keep => exact Or.inl (List.mem_filter.mp h).1
+      | commit => exact Or.inl h
+      | reopen => exact Or.inl h
+      | conjoin sel => exact Or.inl h
+    · clear h0
+      cases op with
+      | put a d => exact Or.inr (List.mem_cons_of_mem _ h)
+      | gc keep => exact Or.inr h
+      | commit => exact Or.inr h
+      | reopen => exact Or.inr h
+      | conjoin sel => exact Or.inr h
+
+/-- present iff written and not collected since — across put, commit (flush with de-duplication),
+reopen, conjoin and garbage collection -/
 theorem store_present_iff_written (ops : List Op) (a : Addr) :
-    ((run ops).abs a).isSome ↔ a ∈ (written ops).map (·.1) := by
-  rw [abs_isSome_iff]
-  have := (foldl_inv ops ⟨[], [], []⟩).2 a
-  simpa [run, Store.keys, Store.entries, Store.chain] using this
+    ((run ops).abs a).isSome ↔ a ∈ (live ops).map (·.1) := by
+  rw [abs_isSome_iff]; exact (holds_run ops).2 a
 
-/-- whatever a read returns was written under that very address … -/
+/-- whatever a read returns was written under that very address and not collected since … -/
+theorem store_returns_live (ops : List Op) (a : Addr) (d : Bytes) (h : (run ops).abs a = some d) :
+    (a, d) ∈ live ops := (holds_run ops).1 (a, d) (abs_mem _ _ _ h)
+
 theorem store_returns_written (ops : List Op) (a : Addr) (d : Bytes) (h : (run ops).abs a = some d) :
     (a, d) ∈ written ops := by
-  rcases (foldl_inv ops ⟨[], [], []⟩).1 (a, d) (abs_mem _ _ _ h) with h | h
-  · simp [Store.entries, Store.chain] at h
+  rcases live_sub_written ops [] (a, d) (store_returns_live ops a d h) with h | h
+  · simp at h
   · exact h
 
 /-- … hence content-addressed, if the writes were -/
